@@ -233,6 +233,28 @@ def check_kernels_pure(P, R):
         R.check(not bad, "PURE.kernel", f.key, f"only the output parameter {outp} is written", "", "; ".join(f"{owneng.fmt_org(o)}: {w}" for o, w in list(bad.items())[:2]))
 
 
+def check_precision_deps(P, R):
+    """DEP.precision (see the comment in the body)."""
+    # DEP.precision: the posterior precision of each latent block is computed from the *current* subspace of that block and the
+    # UBM covariances - not from a constant that happens to equal it for the untrained default (D = sqrt(sigma / r))
+    from ..dataflow import cone as _cone7
+    n_prec = 0
+    for fk_, helper_, need_ in (("update_z", "_compute_id_plus_d_prod_i", ("_D", "D")), ("compute_accumulators_D", "_compute_id_plus_d_prod_i", ("_D", "D"))):
+        f_ = P.func(FA + fk_, required=False)
+        if f_ is None:
+            continue
+        du_ = get_defuse(f_, P)
+        for c_ in [x for x in walk_no_nested(f_.node) if isinstance(x, ast.Call) and isinstance(x.func, ast.Attribute) and x.func.attr == helper_]:
+            if not c_.args:
+                continue
+            n_prec += 1
+            cn_ = _cone7(du_, c_.args[0], du_.stmt_of(c_), interproc=True)
+            has_sub = any(a.split(".")[-1] in need_ for a in cn_.attrs)
+            has_var = any(a.split(".")[-1] in ("variance_supervector", "variances", "_variances") for a in cn_.attrs)
+            R.check(has_sub and has_var, "DEP.precision", f_.key, f"{helper_}({src(c_.args[0])[:30]}, ...)", "D' Sigma^-1 D from the current D and the UBM covariances", f"the posterior precision of z is computed from `{src(c_.args[0])[:30]}`, which does not derive from {'the current D' if not has_sub else 'the UBM covariances'}: the E-step of z no longer matches the model once D has moved away from its initial value", c_.lineno)
+    R.floor("DEP.precision sites", n_prec, 2)
+
+
 def run(P, R, tier):
     check_kernels_pure(P, R)
     from ..engines import memo, own as owneng
@@ -283,6 +305,8 @@ def run(P, R, tier):
     from ..engines import proto as _pst9
     for f9_ in P.all_funcs(['factor_analysis']):
         _pst9.check_standins(P, R, f9_.key)
+
+    check_precision_deps(P, R)
 
 
 EXPLANATION += ' Also: (POL.residual-placement / PREC.placement) every factor of the residuals multiplies and the UBM variances divide; (OPT) optional factors are used only where present and an absent factor contributes 0 / None; (IDX.class-select) the per-class selection compares labels with ==; (DTYPE.raw) no float is stored into a buffer with the dtype of user statistics.'
